@@ -156,12 +156,13 @@ func (s *reportSim) spawnWarrior(wi int, startOffset Address) error {
 		return fmt.Errorf("warrior already spawned")
 	}
 
+	startOffset = startOffset % s.m
 	for i := Address(0); i < Address(len(w.data.Code)); i++ {
 		s.mem[(startOffset+i)%s.m] = w.data.Code[i]
 	}
 
 	w.pq = newProcessQueue(s.maxProcs)
-	w.pq.Push(startOffset + Address(w.data.Start))
+	w.pq.Push((startOffset + Address(w.data.Start)) % s.m)
 	w.state = WarriorAlive
 	s.warriorLivingCount += 1
 
